@@ -346,8 +346,17 @@ func c12RegZsets() {
 		}})
 
 	// score-interval commands: start/stop are int64 scores, sent as decimal strings
+	// about 2 in 5 intervals cover every generated score, so that paging commands see
+	// sorted sets with several members in range
+	scoreLoHi := func(g *c12G) (int64, int64) {
+		if g.uni(5) < 2 {
+			return -(1 << 40), 1 << 40
+		}
+		return g.score(), g.score()
+	}
 	scoreRange := func(g *c12G) c12Step {
-		return c12Step{K: []string{g.key("zset")}, I: []int64{g.score(), g.score()}}
+		lo, hi := scoreLoHi(g)
+		return c12Step{K: []string{g.key("zset")}, I: []int64{lo, hi}}
 	}
 	fmtI := func(v int64) string { return strconv.FormatInt(v, 10) }
 	c12Reg("ZCount", &c12Entry{typ: "zset", mtype: "zset", gen: scoreRange,
@@ -402,7 +411,8 @@ func c12RegZsets() {
 		raw func(c red.Cmdable, ctx context.Context, key string, opt *red.ZRangeBy) *red.ZSliceCmd) {
 		c12Reg(name, &c12Entry{typ: "zset", mtype: "zset", weight: 3,
 			gen: func(g *c12G) c12Step {
-				return c12Step{K: []string{g.key("zset")}, I: []int64{g.score(), g.score(), g.small(0, 2), g.small(-1, 3)}}
+				lo, hi := scoreLoHi(g)
+				return c12Step{K: []string{g.key("zset")}, I: []int64{lo, hi, g.small(0, 2), g.small(-1, 3)}}
 			},
 			wrap: func(e *c12Env, ctx context.Context, s c12Step) (any, error) {
 				if s.X {
